@@ -62,6 +62,9 @@ void ddp_replace_char_in_string(ddpstring *str, ddpchar ch, ddpint index) {
 	size_t oldCharLen = utf8_num_bytes(str->str + i);
 	char newChar[5];
 	size_t newCharLen = utf8_char_to_string(newChar, ch);
+	if (newCharLen == (size_t)-1) { // if ch is invalid utf8, the old char is simply removed
+		newCharLen = 0;
+	}
 
 	if (oldCharLen == newCharLen) { // no need for allocations
 		memcpy(str->str + i, newChar, newCharLen);
